@@ -4,7 +4,7 @@ import random
 from .. import casing, common as c, corpus, l2, translate
 
 THEOREMS = [("Sylvia.Thm.C04", "C04." + t) for t in ["kind_separation", "no_cross_kind", "partMethods_kind"]] + \
-           [("Sylvia.Thm.Obl.Tables", "Obl.accessor_documented"), ("Sylvia.Thm.Obl.Tables", "Obl.epName_documented"),
+           [("Sylvia.Thm.Obl.T.accessor_documented", "Obl.accessor_documented"), ("Sylvia.Thm.Obl.T.epName_documented", "Obl.epName_documented"),
             ("Sylvia.Thm.C06Closed", "C06.ep_forwards")]
 KINDS = ["exec", "query", "sudo", "instantiate", "migrate"]
 
